@@ -28,6 +28,72 @@ def monitor_worker(args, scratch):
     return res
 
 
+def loop_worker(args, scratch):
+    """loop layer: the real service_main::run() (monitor loop + heartbeat) on a paused clock inside the sandbox; see c20_engine.rs loop_layer"""
+    res = {"evaluations": 0, "nontrivial": [], "samples": [], "counts": {}, "violations": []}
+    r = common.rng("c20-loop", args["tier"])
+    version = "9.9.9-c20"
+    ext = os.path.join(scratch, "ext")
+    os.makedirs(os.path.join(ext, "ProxyAgent", "ProxyAgent"))
+    shutil.copy(args["exe"], os.path.join(ext, "c20_engine"))
+    script = "#!/bin/sh\nif [ \"$1\" = \"--version\" ]; then echo %s; fi\nexit 0\n" % version
+    for pth in (os.path.join(ext, "ProxyAgent", "ProxyAgent", "azure-proxy-agent"), os.path.join(ext, "ProxyAgent", "proxy_agent_setup")):
+        open(pth, "w").write(script if pth.endswith("azure-proxy-agent") else "#!/bin/sh\necho \"$@\" >> %s/setup-calls.log\nexit 0\n" % ext)
+        os.chmod(pth, 0o755)
+    # the installed service binary (fixed path /usr/sbin/azure-proxy-agent) reports the same version: an overlay keeps the real /usr/sbin untouched
+    up, wk = os.path.join(scratch, "sbin-upper"), os.path.join(scratch, "sbin-work")
+    os.makedirs(up); os.makedirs(wk)
+    subprocess.run(["mount", "-t", "overlay", "overlay", "-o", "lowerdir=/usr/sbin,upperdir=%s,workdir=%s" % (up, wk), "/usr/sbin"], check=True)
+    open("/usr/sbin/azure-proxy-agent", "w").write(script); os.chmod("/usr/sbin/azure-proxy-agent", 0o755)
+    henv = [{"version": 1.0, "handlerEnvironment": {"logFolder": os.path.join(ext, "log"), "statusFolder": os.path.join(ext, "status"), "configFolder": os.path.join(ext, "config"),
+                                                       "heartbeatFile": os.path.join(ext, "heartbeat.json"), "eventsFolder": os.path.join(ext, "events")}}]
+    json.dump(henv, open(os.path.join(ext, "HandlerEnvironment.json"), "w"))
+    plans = [",".join(["m"] * 24), "o,o,o,+o,o,o,o", "o,m,m,o,o,v,v,v,o,c,o,o", ",".join(["v"] * 22) + ",o,o", ",".join(["c"] * 21) + ",o,m,o,o", "m,o,o,+m,+o,o,o"]
+    for _ in range(4 if args["tier"] == "quick" else 60):
+        steps = []
+        for i in range(r.randrange(8, 40)):
+            st = r.choice(["o", "o", "m", "c", "v"])
+            steps.append(("+" if i and r.random() < 0.1 else "") + st)
+        plans.append(",".join(steps))
+    for pi, plan in enumerate(plans):
+        for d in ("status", "log", "config", "events"):
+            shutil.rmtree(os.path.join(ext, d), ignore_errors=True)
+            os.makedirs(os.path.join(ext, d))
+        shutil.rmtree("/var/log/azure-proxy-agent", ignore_errors=True)
+        out = os.path.join(scratch, "loop-%d.json" % pi)
+        q = subprocess.run([os.path.join(ext, "c20_engine")], env=dict(os.environ, C20_MODE="loop", C20_PLAN=plan, C20_OUT=out, C20_VERSION=version),
+                           stdout=subprocess.PIPE, stderr=subprocess.STDOUT, timeout=600, cwd=ext)
+        if q.returncode != 0 or not os.path.exists(out):
+            if b"panicked" in q.stdout:
+                res["violations"].append(["panic-in-extension-code", {"plan": plan, "output": q.stdout.decode(errors="replace")[-1200:]}])
+                continue
+            res.setdefault("inconclusive", []).append("c20 loop layer failed: " + q.stdout.decode(errors="replace")[-600:])
+            continue
+        rows = json.load(open(out))["rows"]
+        fail_run, prev_ok, prev_err = 0, False, False
+        for row in rows:
+            res["evaluations"] += 1
+            ok = row["observation"] == "o"
+            fail_run = 0 if ok else fail_run + 1
+            st = row["status_file"].lower()
+            wit = {"plan": plan, "iteration": row["iteration"], "observation": row["observation"], "sequence_number": row["sequence_number"], "status_file": row["status_file"],
+                   "consecutive_failed_observations": fail_run, "rows_so_far": [(x["observation"], x["status_file"]) for x in rows[max(0, row["iteration"] - 6):row["iteration"] + 1]]}
+            if st == "error" and fail_run < 20:
+                res["violations"].append(["loop:error-reported-%s" % ("directly-after-a-success" if ok else "before-20-consecutive-failures"), wit]); break
+            if ok and prev_err and st == "error":
+                res["violations"].append(["loop:one-success-did-not-leave-error", wit]); break
+            if ok and prev_ok and st != "success":
+                res["violations"].append(["loop:two-consecutive-successes-did-not-yield-success", wit]); break
+            prev_ok, prev_err = ok, st == "error"
+        if "+" in plan or any(rw["status_file"].lower() == "error" for rw in rows):
+            res["nontrivial"].append(common.sha(["loop", plan]))
+        res["counts"]["loop_layer_plans"] = res["counts"].get("loop_layer_plans", 0) + 1
+        res["counts"]["loop_layer_plans_reaching_error"] = res["counts"].get("loop_layer_plans_reaching_error", 0) + (1 if any(rw["status_file"].lower() == "error" for rw in rows) else 0)
+        if len(res["samples"]) < 2:
+            res["samples"].append({"layer": "loop", "plan": plan, "statuses": [rw["status_file"] for rw in rows][:30]})
+    return res
+
+
 def run(tier, rep):
     exe = os.path.join(common.RUST_TARGET, "release", "c20_engine")
     env = dict(common.CARGO_ENV, CARGO_TARGET_DIR=common.RUST_TARGET)
@@ -64,7 +130,9 @@ def run(tier, rep):
                             "notification run >= 120; distinct by content hash. monitor layer (sandboxed, aggregate status file at its production path): the real report_proxy_agent_aggregate_status / "
                             "extension_substatus / report_proxy_agent_service_status over every sequence of length <= 4 of {poll ok, poll missing, poll corrupt, poll version-mismatch, update ok, update failed, update "
                             "not launched}, failure runs of 17..23 mixed failures, and runs up to 300 polls; judged on the status written to the <seq>.status file (same hysteresis predicates) and on the notifications "
-                            "found in the log, classified by subject (file readable / version matches): emitted on change, never twice within 120 repetitions") % res["exhaustive_depth"]
+                            "found in the log, classified by subject (file readable / version matches): emitted on change, never twice within 120 repetitions. loop layer: the real service_main::run() (monitor "
+                            "loop and heartbeat, started as the extension starts them) on a paused clock; a driver on the same runtime supplies one observation per 15 s iteration (incl. newly enabled sequence numbers) "
+                            "and reads the <seq>.status file the platform would read; same hysteresis predicates") % res["exhaustive_depth"]
     for v in res["violations"]:
         rep.violation(v["signature"], v)
     from .. import sandbox
@@ -72,6 +140,7 @@ def run(tier, rep):
     ev0 = rep.coverage["evaluations"]
     rep.merge_worker(mres)
     rep.coverage["evaluations"] = ev0 + mres.get("evaluations", 0)
+    rep.merge_worker(sandbox.run("vf.props.c20", "loop_worker", {"exe": exe, "tier": tier}, timeout=3000))
     if tier == "thorough":
         from .. import miri
         mr = common.rng("c20-miri")
